@@ -158,7 +158,24 @@ func NewClient(opt ClientOption) (Client, error) {
 	if isDown {
 		return nil, errors.New("dial tcp " + fmt.Sprint(opt.InitAddress) + ": i/o timeout")
 	}
-	return &client{}, nil
+	c := &client{}
+	clientsMu.Lock()
+	clients[c] = struct{}{}
+	clientsMu.Unlock()
+	return c, nil
+}
+
+var (
+	clientsMu sync.Mutex
+	clients   = map[*client]struct{}{}
+)
+
+// OpenClients is the number of clients that were created and not closed:
+// each stands for a connection (and two goroutines) of the proxy.
+func OpenClients() int {
+	clientsMu.Lock()
+	defer clientsMu.Unlock()
+	return len(clients)
 }
 
 // BinaryString, like the real one, is a view of b and not a copy: the bytes
@@ -202,6 +219,9 @@ func (c *client) Close() {
 	c.mu.Lock()
 	c.closed = true
 	c.mu.Unlock()
+	clientsMu.Lock()
+	delete(clients, c)
+	clientsMu.Unlock()
 }
 
 func (c *client) Do(ctx context.Context, cmd Completed) RedisResult {
